@@ -14,6 +14,7 @@ CONSTANTS
   FixAwait = TRUE
   FixPublish = TRUE
   FixInvMax = FALSE
+  AnyTakesAwaiters = FALSE
   SeqInv = TRUE
   MaxOps = 0
 VIEW View
